@@ -2,6 +2,7 @@
 //   io        C05: export/import round trips on both transports, sequences in one stream, byte idempotence
 //   cloudkey  C17: write recorder on the cloud key export (size, prefix relation, no secret encodings), import side
 //   iofault   C18: crash points of the writer (truncation), EIO, mistyped input, corrupted titles/tags
+#include <map>
 #include "scen.h"
 #include <cmath>
 #include <algorithm>
@@ -419,6 +420,26 @@ static void exec_cloudkey(const Plan &p, RunResult &r) {
             if (constant) { r.v.raise("secret-in-cloud-export", "C17.trivial-row", fmt("bootstrapping-key row (%llu,%llu) has a constant mask polynomial: LWE key bit %llu is readable from its body", (unsigned long long) i, (unsigned long long) q, (unsigned long long) i)); break; }
         }
         r.probes.add("key_rows_checked_for_trivial_masks");
+        // --- two rows encrypted under the SAME mask: their difference is (0, m1 - m2 + noise), i.e. a ring-key coefficient (key-switching
+        //     rows) or an LWE key bit (bootstrapping rows) times a public constant in the clear.  Fresh uniform masks of n >= 2 words
+        //     coincide with probability 2^-32n per pair (seeded change C17-h drew one mask per (i,j) block).
+        if (n >= 2 && !r.v.set) {
+            std::map<uint64_t, const LweSample *> seen;
+            for (int i = 0; i < kk->n && !r.v.set; i++) for (int j = 0; j < kk->t && !r.v.set; j++) for (int h = 1; h < kk->base; h++) {
+                const LweSample &smp = kk->ks[i][j][h];
+                auto ins = seen.emplace(hash_bytes(smp.a, (size_t) n * 4), &smp);
+                if (!ins.second && memcmp(ins.first->second->a, smp.a, (size_t) n * 4) == 0) {
+                    r.v.raise("secret-in-cloud-export", "C17.shared-mask", fmt("key-switching row (%d,%d,%d) has the same mask as an earlier row: the difference of the two bodies carries ring-key coefficients times public constants in the clear", i, j, h)); break; }
+            }
+            std::map<uint64_t, const int32_t *> seenp;
+            for (uint64_t i = 0; i < n && !r.v.set; i++) for (uint64_t q = 0; q < kpl && !r.v.set; q++) for (uint64_t u = 0; u < k; u++) {
+                const int32_t *cf = bk->bk[i].all_sample[q].a[u].coefsT;
+                auto ins = seenp.emplace(hash_bytes(cf, (size_t) N * 4), cf);
+                if (!ins.second && memcmp(ins.first->second, cf, (size_t) N * 4) == 0) {
+                    r.v.raise("secret-in-cloud-export", "C17.shared-mask", fmt("bootstrapping-key row (%llu,%llu) mask polynomial %llu equals an earlier mask polynomial", (unsigned long long) i, (unsigned long long) q, (unsigned long long) u)); break; }
+            }
+            r.probes.add("key_rows_checked_for_shared_masks");
+        }
     }
     // --- strict prefix of the secret key set export
     if (!(S.bytes.size() > C.bytes.size() && memcmp(S.bytes.data(), C.bytes.data(), C.bytes.size()) == 0))
